@@ -1,6 +1,7 @@
 package server
 
 import (
+	"bufio"
 	"github.com/bokysan/socketace/v2/internal/socketace"
 	"github.com/bokysan/socketace/v2/internal/streams"
 	"github.com/bokysan/socketace/v2/internal/util/buffers"
@@ -110,6 +111,16 @@ func (ch *ConnectionHandler) muxHandler(protocol string, downstreamConnection io
 	return errors.Errorf("Uknown protocol %s", protocol)
 }
 
+// firstByteStream reads through a buffered reader (so that peeked bytes are not lost) and writes straight through
+type firstByteStream struct {
+	net.Conn
+	reader *bufio.Reader
+}
+
+func (f *firstByteStream) Read(p []byte) (int, error) {
+	return f.reader.Read(p)
+}
+
 // Create a multistream to let the client choose an appropriate solution
 func (ch *ConnectionHandler) multiplexToUpstream(multiplexChannel net.Conn) error {
 	mux := multistream.NewMultistreamMuxer()
@@ -124,8 +135,16 @@ func (ch *ConnectionHandler) multiplexToUpstream(multiplexChannel net.Conn) erro
 		}
 	}()
 
+	// Protocol selection starts with both sides writing. The client's multiplexer only knows a new stream once its
+	// open call has returned, and drops frames that arrive for it earlier - so wait for the client's first bytes
+	// (which it can only send after that) before writing anything to the stream.
+	first := &firstByteStream{Conn: multiplexChannel, reader: bufio.NewReader(multiplexChannel)}
+	if _, err := first.reader.Peek(1); err != nil {
+		return errors.Wrapf(err, "Stream closed before protocol selection: %+v", err)
+	}
+
 	log.Tracef("[Server] Handle channel %v", multiplexChannel)
-	if err := mux.Handle(multiplexChannel); err != nil {
+	if err := mux.Handle(first); err != nil {
 		err = errors.Wrapf(err, "Could not handle multiplex channel: %+v", err)
 		return err
 	}
